@@ -1,1 +1,46 @@
 // verif hook module for src/rng.rs (compiled only with --cfg cberner_raptorq_verif)
+#![allow(dead_code, unused_imports)]
+use super::*;
+
+#[cfg(kani)]
+pub(crate) mod kani_rng {
+    use super::super::*;
+    use crate::verif::rfc::rand_spec;
+    use crate::verif::rfc_tables::*;
+
+    // C15/C04: Rand[y,i,m] equals the RFC definition for every y, every i used by any call site (0..=7),
+    // every m > 0, and never overflows (Kani's automatic arithmetic checks). Loop-free: complete.
+    #[kani::proof]
+    pub(crate) fn rand_matches_rfc() {
+        let y: u32 = kani::any();
+        let i: u32 = kani::any();
+        let m: u32 = kani::any();
+        kani::assume(i <= 7);
+        kani::assume(m > 0);
+        let r = rand(y, i, m);
+        assert!(r == rand_spec(y, i, m), "C15 rand == RFC Rand[y,i,m]");
+        assert!(r < m, "C15 rand < m");
+        kani::cover!(y == 0xFFFF_FFFE && i == 2, "reach: y + i exceeds 2^32");
+    }
+
+    // C15: the V0..V3 tables equal the pinned RFC transcription, entry by entry
+    #[kani::proof]
+    pub(crate) fn v_tables_match_pin() {
+        let j: usize = kani::any();
+        kani::assume(j < 256);
+        assert!(V0[j] == PIN_V0[j], "C15 V0 == RFC 5.5 V0");
+        assert!(V1[j] == PIN_V1[j], "C15 V1 == RFC 5.5 V1");
+        assert!(V2[j] == PIN_V2[j], "C15 V2 == RFC 5.5 V2");
+        assert!(V3[j] == PIN_V3[j], "C15 V3 == RFC 5.5 V3");
+        kani::cover!(j == 255, "reach");
+    }
+
+    #[kani::proof]
+    pub(crate) fn rand_refuses_zero_modulus() {
+        let y: u32 = kani::any();
+        let i: u32 = kani::any();
+        kani::assume(i <= 7);
+        let _ = rand(y, i, 0);
+        assert!(false, "MARKER C15 rand accepted m == 0");
+    }
+}
